@@ -89,11 +89,13 @@ Lemma eval_expr_sp e x : forall s s' v, eval_expr e x s = Ok (s', v) -> same_per
 Proof.
   induction x as [z|n|a IHa f|a IHa b IHb|a IHa b IHb|a IHa b IHb]; intros s s' v H; cbn [eval_expr] in H.
   - injection H as <- _. apply sp_refl.
-  - dbind H as o. destruct o; [|discriminate]. injection H as <- _. apply sp_refl.
+  - dbind H as o. destruct o; injection H as <- _; apply sp_refl.
   - dbind H as [s1 v1]. apply IHa in E.
-    destruct v1; try discriminate.
+    destruct v1; try discriminate;
+      try (destruct (py_own_attr f); [discriminate|]);
+      try (injection H as <- _; exact E).
     + destruct (nth_error (heap s1) h); [|discriminate].
-      destruct (row_attr c f); [|discriminate]. injection H as <- _. exact E.
+      destruct (row_attr c f); injection H as <- _; exact E.
     + destruct (String.eqb f "id"); [|discriminate]. dbind H as [s2 i].
       injection H as <- _. apply touch_slot_sp in E0. eapply sp_trans; eassumption.
   - dbind H as [s1 v1]. dbind H as [s2 v2]. apply IHa in E. apply IHb in E0.
@@ -122,7 +124,7 @@ Proof.
       try (dbind H as [s1 t]; dbind H as w0; injection H as <- _;
            apply render_pieces_sp in E; exact E).
     dbind H as [s1 w]. apply eval_expr_sp in E.
-    destruct w; try (injection H as <- _; exact E).
+    destruct w; try discriminate; try (injection H as <- _; exact E).
     dbind H as w0. injection H as <- _. exact E.
   - dbind H as [s1 t]. dbind H as w0. injection H as <- _.
     apply render_pieces_sp in E. exact E.
@@ -159,7 +161,7 @@ Proof.
   - destruct (hidden n); [eauto|].
     dbind H as [s1 o]. dbind H as [s2 rest]. injection H as <- _.
     apply IH in E0. eapply sp_trans; [|exact E0].
-    destruct v; try (injection E as <- _; apply sp_refl).
+    destruct v; try discriminate; try (injection E as <- _; apply sp_refl).
     + destruct (nth_error (heap s) h); [|discriminate]. injection E as <- _. apply sp_refl.
     + destruct (lookup name (slots s)); [|discriminate]. dbind E as [s3 i].
       injection E as <- _. apply touch_slot_sp in E1. exact E1.
